@@ -40,6 +40,8 @@ pub struct OpSlot {
     pub dropped: bool,
     pub first_polled_step: Option<usize>,
     pub done_step: Option<usize>,
+    /// number of bytes the transport had accepted when the operation completed
+    pub done_wire_len: Option<usize>,
 }
 
 impl OpSlot {
@@ -326,6 +328,7 @@ impl World {
             dropped: false,
             first_polled_step: None,
             done_step: None,
+            done_wire_len: None,
         });
         self.active_ops.push(self.ops.len() - 1);
         Some(self.ops.len() - 1)
@@ -377,6 +380,7 @@ impl World {
                 op.ready_count += 1;
                 op.res = Some(op_res(&out));
                 op.done_step = Some(step);
+                op.done_wire_len = Some(self.writer.len());
                 match out {
                     OpOut::Sub(Ok(rsp)) => op.sub_rsp = Some(rsp),
                     other => {
